@@ -30,7 +30,14 @@ RULE = ('waveform recipes (nesting <= 4) over all classes (table hold/linear/jum
         'sequence parts without a sample (single late time, one middle piece, every other piece ...), the same through ONE reused '
         'output array; equal sub-recipes built as ONE shared object; histories about array identity (temporaries, a slot freed and '
         're-allocated at the same address, reused output arrays, read-only queries, strided / read-only arrays); coinciding channel '
-        'names (linear swap / rotation / x -> 2x, a channel called t); empty dicts / empty channel sets.  Decimal stream (kind dec): durations k/10, k/3, k/5, k/6, k/7, k/100 '
+        'names (linear swap / rotation / x -> 2x, a channel called t); empty dicts / empty channel sets.  Round 4 families: '
+        'get_subset_for_channels with a request inside the channels only ONE operand / part contributes (arithmetic +/-, nested '
+        'arithmetic, multi-channel parts, parallel-added channels, linear outputs; bare and below sequence / repetition / functor / '
+        'reversal / subset; constant operands half of the time; small-scope exhaustive over lhs-only/both/rhs-only assignments of 3 '
+        'channels x every proper request set); constructor paths found unreached by the line-coverage audit (constant-expression '
+        'FunctionWaveform, from_expression, one-part sequences / multi-channel waveforms, SubsetWaveform over constants below '
+        'every optimising constructor); Python-side API probes on every sample case (is_constant vs constant_value_dict vs '
+        'constant_value, unary plus, output arrays of the wrong length / empty time arrays).  Decimal stream (kind dec): durations k/10, k/3, k/5, k/6, k/7, k/100 '
         '(exact TimeType), repetitions 3..10, grid on every junction as correctly rounded doubles, tolerance 2^-30.  '
         'Non-trivial = the recipe has a composite node (not a bare leaf); distinct = canonical JSON.')
 TRUSTED = [
@@ -49,7 +56,7 @@ ASSUMPTIONS = [
     'repetition counts are small positive integers in generated cases (the theorems are for all counts)',
 ]
 MANIFEST = {
-    'level_text': 'Proof: 80 unbounded theorems over an executable Coq model of waveforms.py: vectorised sampler = pointwise '
+    'level_text': 'Proof: 88 unbounded theorems over an executable Coq model of waveforms.py: vectorised sampler = pointwise '
                   'meaning on every sorted grid (all 11 classes); constant_value sound on [0,duration) for all classes; '
                   '__eq__ => same behaviour; reversed()/double reversal laws; totality REFUTED on the unchanged code '
                   '(sequence/repetition at t=duration, reversal around them, chained parallel+linear KeyError) and proved under '
@@ -64,7 +71,10 @@ MANIFEST = {
                   'independence (no transforming nodes: any history; any transformations: arrays not mutated, no linear output '
                   'shadowing a forwarded channel - refuted without that guard); code meaning = DESIGN 4.4 denotation for reversal '
                   'ANYWHERE together with transformations of ANY kind (mirror law incl. time dependent transformations below a '
-                  'reversal) away from the junctions an executable parity guard excludes. Only tested (not modelled): the content '
+                  'reversal) away from the junctions an executable parity guard excludes; round 4: exclusive-channel laws of '
+                  'ArithmeticWaveform and when get_subset of lhs op rhs may be answered by one operand alone (lhs: always; rhs: '
+                  'for + only, refuted for -). Only tested (not modelled): is_constant(), from_expression (translated by the '
+                  'printer), output-array length checks, the content '
                   'of a supplied output array before the call, float rounding. '
                   'The model (incl. a state machine for the TransformingWaveform cache) is tied to /repo by an exact '
                   'correspondence check, an independent denotation (DESIGN 4.4) on generated waveform trees incl. families for '
@@ -73,7 +83,7 @@ MANIFEST = {
     'level_note': 'Trusted: Coq kernel, numpy/sympy semantics as modelled, harness (py_build, printers), Python hash. Float '
                   'rounding not modelled (dyadic inputs exact; decimal stream under a declared tolerance, counted apart; its '
                   'known finding is classified by an exact reference and excuses only samples on an inner table entry). '
-                  '8 known findings (3 more were repaired in /repo: 01efa2c, 33916af, 55554c3).',
+                  '8 known findings (4 more were repaired in /repo: 01efa2c, 33916af, 55554c3, 4b5e473).',
     'technique': 'Coq proof over a hand-written model + correspondence check + denotational oracle',
     'design_ref': 'DESIGN.md §5 C08, §4.3, §4.4, Appendix C, D4',
 }
@@ -1551,7 +1561,6 @@ def malformed_recipes(rng):
         t(1, [(0, 1, 'h'), (-1, 2, 'l'), (1, 3, 'l')]),
         ['multi', False, [c(1, 1, 1), c(1, 2, 2), c(2, 3, 3)]], ['multi', True, [c(1, 1, 1), c(2, 2, 2), c(1, 3, 3)]],
         ['getsubset', ['func', ['1', '1'], '1', 1], []], ['getsubset', t(1, [(0, 0, 'h'), (1, 1, 'l')], False), []],
-        ['getsubset', ['arith', False, c(1, 1, 1), '-', c(1, 2, 2)], []], ['getsubset', ['rev', t(1, [(0, 0, 'h'), (1, 1, 'l')])], []],
     ]
     return out
 
